@@ -85,6 +85,12 @@ func evalOracles(sc *Scenario, all []obs, rec *Rec) {
 			anyRefusal = true // amended comp ids: outside C05's precondition as well
 		}
 	}
+	evRefusal := false
+	for _, o := range append(append([]Op{}, sc.Pre...), sc.Ops...) {
+		if o.Kind == "REGEV" && !o.Flag {
+			evRefusal = true // an application event handler that ends the chain before the session's own
+		}
+	}
 	expSender, expTarget := sc.Sender, sc.Target
 	gapless := true
 
@@ -99,7 +105,7 @@ func evalOracles(sc *Scenario, all []obs, rec *Rec) {
 			}
 			if prev, seen := firstTx[n]; seen {
 				// a retransmission must be byte-identical to the first transmission
-				if !bytes.Equal(prev, w) {
+				if !bytes.Equal(prev, w) && !anyRefusal {
 					setFail(rec, "C10", fmt.Sprintf("op %d: message %d re-sent with different bytes", i, n))
 				}
 				if !isResendOp {
@@ -389,10 +395,10 @@ func evalOracles(sc *Scenario, all []obs, rec *Rec) {
 							found = true
 						}
 					}
-					if !found {
+					if !found && !evRefusal {
 						setFail(rec, "C15", fmt.Sprintf("op %d: logout event not signalled on the peer's answer", i))
 					}
-					if stopIssued && !o.Cancelled {
+					if stopIssued && !o.Cancelled && !evRefusal {
 						setFail(rec, "C15", fmt.Sprintf("op %d: session context not cancelled on the peer's answer to Stop", i))
 					}
 				}
